@@ -37,7 +37,14 @@ def compile_script(script_path: str) -> CompilerOutput:
     if script_name.endswith(".py"):
         script_name = script_name[:-3]
     timer.start("nada_dsl.compile.compile.__import__")
-    script = __import__(script_name)
+    # Load the program from the given path. Importing it by name would return whatever module
+    # of that name is already loaded or found first on sys.path (a standard-library module, a
+    # program compiled earlier from another directory) and cannot handle dotted file names.
+    spec = importlib.util.spec_from_file_location(script_name, script_path)
+    if spec is None or spec.loader is None:
+        raise ImportError(f"cannot load program {script_path}")
+    script = importlib.util.module_from_spec(spec)
+    spec.loader.exec_module(script)
     timer.stop("nada_dsl.compile.compile.__import__")
 
     try:
